@@ -190,15 +190,22 @@ def check_cmd_frame(chip, code, payload, written):
 
 def run_cmd_case(chip, cs, tr, code, payload):
     tr.written = []
-    if chip == 'rcs380':
-        rsp = cs.send_command(code, payload)
-        if rsp != b'\x00':
-            return 'harness', 'send_command returned %r' % (rsp,)
-    else:
-        rsp = cs.command(code, payload, 0.1)
-        if rsp != b'':
-            return 'harness', 'command returned %r' % (rsp,)
-    return check_cmd_frame(chip, code, payload, tr.written)
+    exc = None
+    try:
+        if chip == 'rcs380':
+            rsp = cs.send_command(code, payload)
+            good = rsp == b'\x00'
+        else:
+            rsp = cs.command(code, payload, 0.1)
+            good = rsp == b''
+    except IOError as e:            # the echo does not answer a bad frame
+        exc, good, rsp = e, False, None
+    v = check_cmd_frame(chip, code, bytes(payload), tr.written[:1])
+    if v is None and not good:
+        if exc is not None:
+            raise exc
+        return 'harness', 'valid frame written but %r returned' % (rsp,)
+    return v
 
 
 def work_cmd(run, item, tier):
@@ -553,7 +560,14 @@ def work_rsp(run, item, tier):
         # the unmutated frame must be accepted (harness sanity)
         result, exc = h.run(code, pre + [frame])
         if exc is not None or bytes(result) != payload:
-            raise AssertionError(('valid frame not accepted', item, exc))
+            run.fail('%s.command|rsp%s|valid|rejected' % (
+                'pn53x' if fam == 'pn53x' else chip,
+                '-tty' if kind == 'tty' else ''), dict(
+                    part=part, chip=chip, code=code, mutation='valid',
+                    script=[bytes(x) for x in pre + [frame]],
+                    observed=repr(exc) if exc else bytes(result),
+                    verdict='the unmutated valid frame was not returned as '
+                            'its payload'), key=(part, chip, n, 'valid'))
         for i, (c, f) in enumerate(special_frames(fam, code, n)):
             rsp_case(h, run, code, c, pre + [f], (part, chip, n, c, i),
                      stream=stream)
@@ -576,7 +590,9 @@ def work_rsp(run, item, tier):
                         continue
                     g = bytearray(frame)
                     g[i], g[j] = x, y
-                    rsp_case(h, run, code, 'pairs', pre + [bytes(g)],
+                    cls2 = 'pairs+postamble' if j == len(frame) - 1 \
+                        else 'pairs'
+                    rsp_case(h, run, code, cls2, pre + [bytes(g)],
                              (part, chip, n, 'p', i, j, x, y), stream=stream)
         return
     for i in range(a, b):
@@ -834,12 +850,12 @@ def work_crc_flips(run, which, i, sl, S):
         key = ('fd', which, i, bits)
         if not bits:
             if exc is not None or bytes(res) != msg:
-                if tt2 and len(fr) <= 2:
-                    pass
-                else:
-                    raise AssertionError(('valid CRC frame rejected', which,
-                                          fr, exc, res))
-            n_ok += 1
+                crc_fail(run, '%s(valid frame rejected)' % which, fr,
+                         repr(exc) if exc is not None else bytes(res),
+                         msg, key, exc if not isinstance(
+                             exc, nfc.clf.TransmissionError) else None)
+            else:
+                n_ok += 1
             continue
         if tt2 and len(g) <= 2:
             continue            # the drivers pass ACK/NAK sized answers up
